@@ -17,6 +17,7 @@ RULE = ("for dimension-wise and extend-split configurations (library integrands;
         "and interpolation are compared with the saved object's. distinct = digest(strategy, configuration, k); non-trivial = "
         "interruption point with 0 < k < last evaluation of U")
 RULE += (" Dimension-wise cases additionally stop by a loose TOLERANCE (error against the analytic reference) and continue with a tighter one; the end state is compared with the single run using the tight tolerance.")
+RULE += (" Half of the checkpoints are written to a path that already holds an older checkpoint of the same run.")
 REQUIRED = ["continue_tighter_tolerance", "continue_structure", "continue_scheme", "continue_result", "continue_points", "restore_identical_result",
             "restore_identical_interpolation", "restored_continue_structure", "restored_continue_result"]
 MIN_NONTRIVIAL = {"quick": 60, "thorough": 800}
@@ -166,6 +167,12 @@ def run_case(case, res):
             obj = ca
             if variant == "restore":
                 path = os.path.join(os.getcwd(), "c14_%d_%d.dill" % (case["seed"] % 100000, k))
+                if k > 0 and rng.random() < 0.5:
+                    # the checkpoint file already holds an OLDER checkpoint of the same run (stopped at evaluation 0)
+                    cz, ez = build(strategy, cfg, fac())
+                    quiet(cz.performSpatiallyAdaptiv, errorOperator=ez, max_evaluations=pts_u[0] - 1, **args)
+                    quiet(cz.save_to_file, path)
+                    res.count("checkpoint_overwrites_older_file")
                 quiet(ca.save_to_file, path)
                 obj = StandardCombi.restore_from_file(path)     # continued below
                 probe = StandardCombi.restore_from_file(path)   # only used for the comparison with the saved instance:
